@@ -125,6 +125,34 @@ def main():
             plain, harness, desc = program(name, form, list(kinds))
             fam.add(name, desc, plain, harness)
             n += 1
+    # assignment order is observable when the same place is listed twice: the LAST listed component wins
+    for k in (2, 3, 6):
+        for form in ("if_ok", "try"):
+            name = "p%03d" % n
+            payload_ty = "(" + ", ".join(["u8"] * k) + ")"
+            pat = "(" + ", ".join(["v0"] * k) + ")"
+            if form == "if_ok":
+                plain = ("use konst::{rebind_if_ok, try_rebind};\n\npub fn run(input: Result<%s, u8>, init: u8) -> Result<u8, u8> {\n    let mut v0 = init;\n"
+                         "    rebind_if_ok!{%s = input}\n    Ok(v0)\n}\n") % (payload_ty, pat)
+            else:
+                plain = ("use konst::{rebind_if_ok, try_rebind};\n\npub fn run(input: Result<%s, u8>, init: u8) -> Result<u8, u8> {\n    let mut v0 = init;\n"
+                         "    try_rebind!{%s = input}\n    Ok(v0)\n}\n") % (payload_ty, pat)
+            err_expect = "Ok(init)" if form == "if_ok" else "Err(e)"
+            harness = """
+    fn check() {
+        let input: Result<%s, u8> = kani::any();
+        let init: u8 = kani::any();
+        match input {
+            Ok(x) => assert!(run(input, init) == Ok(x.%d)),
+            Err(e) => assert!(run(input, init) == %s),
+        }
+        must_reach!(input.is_ok(), "Ok payload");
+    }
+    tiers! { %s: unwind(8, 8), check(), check(),
+        calls("konst::%s! (same place listed %d times)"), bounds("every payload", "same"), exhaustive }
+""" % (payload_ty, k - 1, err_expect, name, "rebind_if_ok" if form == "if_ok" else "try_rebind", k)
+            fam.add(name, "%s arity %d, same place in every position (assignment order observable)" % (form, k), plain, harness)
+            n += 1
     # single value written with parentheses: `(v0)`
     for form in ("if_ok_code", "try"):
         name = "p%03d" % n
